@@ -9,6 +9,7 @@ import (
 	"fmt"
 	edverifier "github.com/storacha/go-ucanto/principal/ed25519/verifier"
 	"io"
+	"log"
 	"math/rand"
 	"net/http"
 	"net/http/httptest"
@@ -43,11 +44,14 @@ func init() {
 	isolatedOps["resp"] = true
 }
 
+// cutExtra: bytes announced but not sent by the "http-cut" server (set while building the body)
+var cutExtra = 7
+
 var respKinds = []string{
 	"empty-batch", "empty-report", "foreign-report", "normal", "bare-ran", "missing-receipt-block", "missing-invocation-block",
 	"receipt-not-a-receipt", "receipt-empty-out", "receipt-no-issuer", "receipt-bad-issuer", "receipt-empty-sig", "receipt-fx", "report-nil-value",
 	"root-not-message", "no-roots", "two-roots", "garbage", "empty-body", "truncated", "flipped",
-	"receipt-bad-issuer", "receipt-bad-issuer", "text-error", "text-error", "text-error", "receipt-short-sig", "receipt-short-sig", "huge-section", "huge-section",
+	"receipt-bad-issuer", "receipt-bad-issuer", "text-error", "text-error", "text-error", "receipt-short-sig", "receipt-short-sig", "huge-section", "huge-section", "report-null", "report-null", "http-cut", "http-cut", "http-cut",
 }
 
 func genC15(cfg Config, emit Emit) error {
@@ -60,6 +64,9 @@ func genC15(cfg Config, emit Emit) error {
 		for _, k := range respKinds {
 			st := statuses[cfg.Rng.Intn(len(statuses))]
 			via := []string{"direct", "http"}[(i+len(k))%2]
+			if k == "http-cut" {
+				via = "http"
+			}
 			emit("resp", []string{k, itoa(st), itoa(cfg.Rng.Intn(1 << 30)), via}, k+"/"+via, true)
 		}
 	}
@@ -234,6 +241,34 @@ func respBody(kind string, r *rand.Rand) ([]byte, []ipld.Link) {
 		good := carOf([]ipld.Link{rt.Link()}, []ipld.Block{rt})
 		l := []uint64{1 << 62, 1<<62 + 1, 1<<63 - 1, 1 << 63, 1<<64 - 1, 1 << 40, 32<<20 + 1}[r.Intn(7)]
 		return append(append(good, binary.AppendUvarint(nil, l)...), 0x01, 0x71), lookups
+	case "report-null":
+		// {"ucanto/message@7.0.0": {"report": {"<invocation>": null}}}
+		n := anyNode(func(na datamodel.NodeAssembler) {
+			ma, _ := na.BeginMap(1)
+			ma.AssembleKey().AssignString("ucanto/message@7.0.0")
+			da, _ := ma.AssembleValue().BeginMap(1)
+			da.AssembleKey().AssignString("report")
+			ra, _ := da.AssembleValue().BeginMap(1)
+			ra.AssembleKey().AssignString(inv.Link().String())
+			ra.AssembleValue().AssignNull()
+			ra.Finish()
+			da.Finish()
+			ma.Finish()
+		})
+		enc, _ := encodeNode(n)
+		rt := rawCborBlock(enc)
+		return carOf([]ipld.Link{rt.Link()}, []ipld.Block{rt, inv.Root()}), lookups
+	case "http-cut":
+		// a good response of several blocks whose transmission stops exactly at a section boundary
+		rr := rawReceipt(nil, []byte{0xed, 0xa1, 0x03, 0x00}, inv.Link())
+		rt := encodeMsgRoot([]ipld.Link{}, reportFor(inv.Link(), rr.Link()))
+		full := carOf([]ipld.Link{rt.Link()}, []ipld.Block{rt, rr, inv.Root()})
+		part := carOf([]ipld.Link{rt.Link()}, []ipld.Block{rt, rr})
+		if r.Intn(2) == 0 {
+			part = carOf([]ipld.Link{rt.Link()}, []ipld.Block{rt})
+		}
+		cutExtra = len(full) - len(part)
+		return part, lookups
 	case "receipt-empty-sig":
 		s := svc.DID().String()
 		rr := rawReceipt(&s, []byte{}, dummyLink(6))
@@ -301,11 +336,25 @@ func execResp(a []string) (res Result) {
 			default:
 				w.Header().Set("Content-Type", ct)
 			}
+			mode := atoi(a[2]) / 7 % 4
+			if kind == "http-cut" {
+				mode = 2
+			}
+			if mode == 2 && status == 200 && len(body) > 0 {
+				// the connection breaks before the announced length has arrived
+				w.Header().Set("Content-Length", itoa(len(body)+cutExtra))
+			}
 			w.WriteHeader(status)
 			if status != 204 && status != 304 {
+				if mode == 1 { // no Content-Length: the reply is streamed
+					if f, ok := w.(http.Flusher); ok {
+						f.Flush()
+					}
+				}
 				w.Write(body)
 			}
 		}))
+		ts.Config.ErrorLog = log.New(io.Discard, "", 0)
 		defer ts.Close()
 		u, _ := url.Parse(ts.URL)
 		ch = thttp.NewHTTPChannel(u)
@@ -332,13 +381,18 @@ func execResp(a []string) (res Result) {
 	}
 	step = "Blocks()"
 	nb := 0
+	blkErr := false
 	for _, err := range resp.Blocks() {
 		if err != nil {
+			blkErr = true
 			break
 		}
 		nb++
 	}
 	trace = append(trace, fmt.Sprintf("blocks=%d", nb))
+	if kind == "http-cut" && status == 200 && !blkErr {
+		return Result{Impl: "response", Oracle: "fail:a reply whose transmission broke off before the announced length was accepted as a complete response (no error from Execute, none from its blocks)"}
+	}
 	if am, ok := resp.(message.AgentMessage); ok {
 		step = "Receipts()"
 		rlinks = append(rlinks, am.Receipts()...)
